@@ -390,6 +390,9 @@ type KLMWrap struct {
 	Last map[local.Key]AbsLocation
 	Puts atomic.Int64
 	hist []local.Key
+	// histNew[i]: the i-th store named a location for the first time.
+	histNew []bool
+	seenLoc map[[2]int64]bool
 	// ParkAt, when n > 0, makes the n-th next Get pass the gate point
 	// "klm.get" before it looks the key up (it is then inside the caller's
 	// critical section: a lookup runs under the store's read lock).
@@ -415,6 +418,20 @@ func (k *KLMWrap) KeysSince(n int64) []local.Key {
 	return append([]local.Key(nil), k.hist[n:]...)
 }
 
+// CopiedKeysSince is KeysSince restricted to the stores that named a location
+// for the first time, i.e. that followed a copy of data.
+func (k *KLMWrap) CopiedKeysSince(n int64) []local.Key {
+	k.mu.Lock()
+	defer k.mu.Unlock()
+	var out []local.Key
+	for i := n; i < int64(len(k.hist)); i++ {
+		if k.histNew[i] {
+			out = append(out, k.hist[i])
+		}
+	}
+	return out
+}
+
 // AbsLocation is a location with an absolute block number.
 type AbsLocation struct {
 	AbsBlock int64
@@ -435,6 +452,15 @@ func (k *KLMWrap) Put(key local.Key, loc local.Location) error {
 	}
 	k.mu.Lock()
 	k.hist = append(k.hist, key)
+	// A store at a location no earlier store named is a copy of data; a
+	// store at a known location only adds a name for data that is there
+	// already (hierarchical lookup keys).
+	if k.seenLoc == nil {
+		k.seenLoc = map[[2]int64]bool{}
+	}
+	la := [2]int64{abs.AbsBlock, abs.Offset}
+	k.histNew = append(k.histNew, !k.seenLoc[la])
+	k.seenLoc[la] = true
 	k.mu.Unlock()
 	k.Puts.Add(1)
 	k.log.Add("klm.put", abs.AbsBlock, abs.Offset, fmt.Sprintf("%x size=%d err=%v", key[:4], loc.SizeBytes, err))
